@@ -245,6 +245,34 @@ func scenarios() []scenario {
 			e.caller("X", func(rec func(string, error)) { e.c.Close(); rec("close", nil) })
 			return e.finish()
 		}},
+		{name: "mailbox-reader+unilateral-updates", allOK: true, body: func() interface{} {
+			e := setup("* PREAUTH [CAPABILITY IMAP4rev1] ready\r\n")
+			base := e.srv.Respond
+			e.srv.Respond = func(c *vimap.Cmd) string {
+				if c.Name == "NOOP" {
+					return "* 1 EXPUNGE\r\n* 5 EXISTS\r\n* FLAGS (\\Seen \\Draft)\r\n* OK [PERMANENTFLAGS (\\Seen)] ok\r\n" + c.Tag + " OK done\r\n"
+				}
+				return base(c)
+			}
+			e.caller("A", func(rec func(string, error)) {
+				_, err := e.c.Select("INBOX", nil).Wait()
+				rec("select", err)
+				rec("noop", e.c.Noop().Wait())
+			})
+			e.caller("O", func(rec func(string, error)) {
+				for i := 0; i < 3; i++ {
+					mb := e.c.Mailbox()
+					n1 := appReadMailbox(mb)
+					vsched.Yield("application looks at the snapshot again")
+					if n2 := appReadMailbox(mb); n1 != n2 {
+						rec("snapshot-stable", fmt.Errorf("snapshot changed under the application: %d -> %d", n1, n2))
+						return
+					}
+				}
+				rec("snapshot-stable", nil)
+			})
+			return e.finish()
+		}},
 		{name: "caps-invalidation", allOK: true, body: func() interface{} {
 			e := setup("* OK ready\r\n") // no capabilities in the greeting: background CAPABILITY
 			e.srv.Respond = func(c *vimap.Cmd) string {
@@ -284,6 +312,17 @@ func scenarios() []scenario {
 			return e.finish()
 		}},
 	}
+}
+
+// appReadMailbox stands for application code looking at a snapshot returned by Client.Mailbox().
+// It is deliberately NOT //go:norace: the race pass must see these reads (a report whose other
+// side is in the client is a client data race: the documented contract is that the snapshot is
+// immutable).
+func appReadMailbox(mb *imapclient.SelectedMailbox) uint32 {
+	if mb == nil {
+		return 0
+	}
+	return mb.NumMessages + uint32(len(mb.Flags)) + uint32(len(mb.PermanentFlags)) + uint32(len(mb.Name))
 }
 
 func build(s scenario) *vx.Scenario {
@@ -454,7 +493,7 @@ func main() {
 			}
 		}
 		run.AddEvals(rexec)
-		reports := vx.ParseRaceReports(stderr, []string{"go-imap/v2/imapclient", "go-imap/v2/internal/imapwire", "go-imap/v2.", "go-imap/v2/internal."})
+		reports := vx.ParseRaceReports(stderr, []string{"go-imap/v2/imapclient", "go-imap/v2/internal/imapwire", "go-imap/v2.", "go-imap/v2/internal.", "main.appRead"})
 		var harnessReports int64
 		for _, rep := range reports {
 			if !rep.Inner {
